@@ -190,7 +190,9 @@ CHECKS = [
                 "pairwise distinct (replayed or shared streams collide). Sampling; the OS schedule is perturbed, not "
                 "owned.",
         "design_ref": "DESIGN.md section 2, C14",
-        "note": "Worker assignments that delays cannot provoke are not explored; 64-bit chance collisions ~ n^2 2^-64.",
+        "note": "Worker assignments that delays cannot provoke are not explored; 64-bit chance collisions ~ n^2 2^-64. "
+                "One known finding is recorded (chain-count dependence with position-only initial states; "
+                "known_findings.json) and printed as KNOWN-FINDING.",
     },
     {
         "property_id": "C15",
